@@ -16,7 +16,7 @@ CLAIMED = {
    text="Acceptance by the authorization endpoint implies every condition of the statement (computed independently); request-object parameters are honoured only if verifiable; tokens never appear in a Location query; state is echoed byte-identical.",
    note="Duplicate / case-variant response_type members are unspecified. 'code id_token' for a client without the implicit grant is logged, not asserted.", ref="DESIGN.md 4 C13"),
  "C14": dict(level="exploration", technique="property-based testing (rapid): every ID token in every response is verified with the public key and compared with independently computed bindings",
-   text="All OpenID Connect flows x key types x session and request shapes; signature, alg, aud, sub, iss, nonce, exp window, at_hash / c_hash (left-half hash by alg) and the stated blockers of issuance.",
+   text="All OpenID Connect flows x key types x session and request shapes; signature, alg, aud, sub, iss, nonce, exp window, at_hash / c_hash (left-half hash by alg) and the stated blockers of issuance. A second job addresses the ID token strategy directly (GenerateIDToken over generated sessions and request forms, every grant type): max_age, prompt and id_token_hint (other subject, case variant, expired, garbage, foreign key) the session does not satisfy must make issuance fail outside refreshes.",
    note="Conditional oracle: a refusal is always acceptable. c_hash compared only when a code is delivered in the same response. Key/header combinations limited to the documented ones.", ref="DESIGN.md 4 C14"),
  "C15": dict(level="exploration", technique="property-based testing (rapid) over claim/header/key defects and short histories, plus exhaustive enumeration of storage-step interleavings of simultaneous presentations (harness-owned scheduler) and free-running simultaneous presentations with real parallelism",
    text="Assertions with 0-2 named defects must be refused whenever the statement gives a reason; defect-free ones accepted; replays refused; 2 simultaneous presentations are run under every interleaving of their storage steps (3: bounded DFS): exactly one succeeds; 6 goroutines presenting one fresh assertion at the same instant (token endpoint, JWT-bearer grant, the store itself) for thousands of rounds: at most one accepted. Client assertions are presented at the token, PAR, revocation and device-authorization endpoints.",
